@@ -151,6 +151,16 @@ def sweep_chars(interp):
     return [c for c in cs if not (interp == "comma" and c == ",")]
 
 
+MARKER_WORDS = ["-----BEGIN", "-----END-----", "Field:", "A:b", "a::b", "--", "#x#", "x#", "${a:b}", "(>=1)", "[!amd64]",
+                "<!nocheck>", "a|b", "\\n", "\\", "..", "%s", "{}", "=x", "a;b", "\u00a0", "\u2028", "\u2029", "\x0b", "\x0c", "\x1c", "\x1d", "\x1e", "\x1f", "\x85", "\u3000"]
+MARKER_WORDS_WS = ["a,b", ",", ",x", "x,"]
+MARKER_WORDS_COMMA = ["-----BEGIN PGP SIGNATURE-----", "a (>= 1) | b [x y] <!z>", "A: b", "x  #h", "a\tb"]
+
+
+def marker_words(interp):
+    return MARKER_WORDS + (MARKER_WORDS_WS if interp == "ws" else MARKER_WORDS_COMMA)
+
+
 def units(tier, seed):
     out = []
     for interp in ("ws", "comma"):
@@ -158,6 +168,9 @@ def units(tier, seed):
             out.append({"interp": interp, "first": first})
         cs = sweep_chars(interp)
         out += [{"interp": interp, "sweep": cs[i:i + 25]} for i in range(0, len(cs), 25)]
+        # words that spell a marker of a neighbouring layer in full (armor, field syntax, comments, substitution
+        # variables, relation syntax, escapes, the other interpretation's separator)
+        out.append({"interp": interp, "sweep": marker_words(interp)})
     for interp in ("ws", "comma"):
         out += [{"interp": interp, "route": list(r)} for r in ROUTES[1:]]
         out += [{"interp": interp, "extra": first} for first in PIECES[interp](seed)]
@@ -266,9 +279,15 @@ def _interp(name):
     return LIST_SPACE_SEPARATED_INTERPRETATION if name == "ws" else LIST_COMMA_SEPARATED_INTERPRETATION
 
 
+def _lines(text, nl="\n"):
+    """the lines of a document: only a line feed ends one (str.splitlines also cuts at FF, VT, U+2028, ...)"""
+    parts = text.split(nl)
+    return [x + nl for x in parts[:-1]] + ([parts[-1]] if parts[-1] else [])
+
+
 def _parse(text, dup=False):
     from debian._deb822_repro import parse_deb822_file
-    return parse_deb822_file(text.splitlines(True), accept_files_with_error_tokens=True,
+    return parse_deb822_file(_lines(text), accept_files_with_error_tokens=True,
                              accept_files_with_duplicated_fields=dup)
 
 
@@ -389,7 +408,7 @@ def _open(case):
     sh = SHAPES[shape]
     doc = sh[0] + "F:" + v + sh[1]
     if shape == "bytes":
-        f = parse_deb822_file(doc.encode("utf-8").splitlines(True), accept_files_with_error_tokens=True)
+        f = parse_deb822_file(_lines(doc.encode("utf-8"), b"\n"), accept_files_with_error_tokens=True)
     elif shape == "assigned":
         f = _parse("X: 1\nF: q\nY: 2\n")
         next(iter(f))["F"] = v
@@ -616,7 +635,8 @@ def run_sweep(part, interp, chars):
     """one unusual character at a time inside the words of a list (read, no-op, and every depth-1 edit)"""
     sep = " " if interp == "ws" else ", "
     for c in chars:
-        words = ["x" + c + "y", c, c + c]
+        blank = c.strip() != c or not c.strip()        # a character str.split / str.strip count as white space
+        words = ["x" + c + "y", "m" + c + "m", "x" + c + c + "y"] if blank else ["x" + c + "y", c, c + c]
         layouts = [" " + sep.join(words), words[0] + sep + "m\n " + words[1], " m" + sep + "\n#k\n " + words[2] + sep.rstrip()]
         for v in layouts:
             if not valid_value(v):
@@ -632,7 +652,11 @@ def run_sweep(part, interp, chars):
             if bad:
                 continue
             part.nontrivial += 1
-            for e in list(edits_for(vals, interp)) + [("append", "z" + c), ("replace", vals[0], c + "z")]:
+            # (inside a whitespace-separated list such a character separates words: no new word can contain it)
+            more = [] if blank and interp == "ws" else \
+                [("append", "z" + c + "z"), ("replace", vals[0], "k" + c + "z")] if blank else \
+                [("append", "z" + c), ("replace", vals[0], c + "z")]
+            for e in list(edits_for(vals, interp)) + more:
                 for observe in (False, True):
                     case = dict(base, sessions=[[e]], observe=observe)
                     bad, _v = run_case(case)
@@ -897,7 +921,7 @@ def repro_py(case):
     return ("from debian._deb822_repro import parse_deb822_file, LIST_SPACE_SEPARATED_INTERPRETATION as WS, "
             "LIST_COMMA_SEPARATED_INTERPRETATION as CS\n"
             "# route: document shape %r, list obtained by %r, block style %r, reformat %r (see mc/props/c11.py ROUTES)\n"
-            "doc = %r\nf = parse_deb822_file(doc.splitlines(True), accept_files_with_duplicated_fields=True); p = list(f)[%d]\n"
+            "doc = %r\nf = parse_deb822_file([l + '\\n' for l in doc.split('\\n')[:-1]] + [l for l in doc.split('\\n')[-1:] if l], accept_files_with_duplicated_fields=True); p = list(f)[%d]\n"
             "with p.as_interpreted_dict_view(%s)[%r] as lst:\n    print(list(lst))  # sessions: %r\nprint(repr(f.dump()))\n"
             % (shape, case.get("access", "item"), case.get("block", "with"), case.get("reformat"),
                sh[0] + "F:" + case["value"] + sh[1], sh[3], "WS" if case["interp"] == "ws" else "CS", sh[5], case["sessions"]))
